@@ -3,6 +3,7 @@ CONSTANTS
   N = 127
   GenMax <- G8_Max
   GenShapes <- G_Shapes
+  SampleK = 40
   GenVals <- G_Vals
 INVARIANT EmitCol
 CHECK_DEADLOCK FALSE
